@@ -235,6 +235,9 @@ func (s *heapSubj[T]) iter() containers.IteratorWithIndex[T] {
 }
 
 func (s *heapSubj[T]) check(o *Oracle) {
+	if len(o.Active) == 0 {
+		return // C18 write phases: no observer may run on the container (it would warm lazily built state)
+	}
 	vals := s.c.Values()
 	if o.On("C06") || o.On("C16") {
 		tag := "C06"
